@@ -33,6 +33,9 @@ def run(chk, repo: Repo):
     chk.rule("C15-R3", "optimiser receives -logd and -gradient of the same density; result wrapped with that density's geometry", floor=3)
     chk.rule("C15-R4", "direct sampling: x_map.parameters + chol(inv(A.T Ce^-1 A + Cx^-1)) @ N(0, I)", floor=1)
     chk.rule("C15-R5", "no in-place operation of MAP/_sampleMapCholesky may reach stored problem data", floor=2)
+    chk.rule("C15-R6", "the covariance the direct route reads (Gaussian.compute_cov) is inv(sqrtprec.T @ sqrtprec), the covariance of the log-density", floor=1)
+    from ..gram import gram_orientation
+    gram_orientation(chk, repo, "C15-R6", only={"Gaussian.compute_cov"})
     bp = repo.cls(BP)
     mp = repo.method(bp, "MAP")[1]
     sc = repo.method(bp, "_sampleMapCholesky")[1]
